@@ -108,6 +108,13 @@ class SymX:
             elif isinstance(val, ast.Name) and val.id in s.tup:
                 tupforms = s.tup[val.id]
             f = lin.form(val)
+            # chained assignment  self.x = y = <fresh container>  : y aliases self.x
+            attr_t = [t for t in st.targets if isinstance(t, ast.Attribute)]
+            if attr_t and len(st.targets) > 1 and isinstance(val, (ast.List, ast.Dict, ast.Set, ast.Call, ast.ListComp)):
+                alias = Form.atom(self._target_text(attr_t[0], lin))
+                for t in st.targets:
+                    self._assign_target(t, f if isinstance(t, ast.Attribute) else alias, tupforms, s, st)
+                return [s]
             for t in st.targets:
                 self._assign_target(t, f, tupforms, s, st)
             return [s]
